@@ -129,6 +129,7 @@ class GramCD(BaseSolver):
                     if p_obj_acc < p_obj:
                         w[:] = w_acc
                         grad[:] = grad_acc
+                        opt = penalty.subdiff_distance(w, grad, all_features)
 
             # store p_obj
             p_obj = (0.5 * w @ (scaled_gram @ w) - scaled_Xty @ w + scaled_y_norm2 +
